@@ -226,7 +226,7 @@ func TestEnumPermutations(t *testing.T) {
 	ev.Rule(chkEnum, fmt.Sprintf("all sub-histories of <= %d operations (genuine create + <= %d of 8 others: duplicate create with other delta, update A, fork A2, B after A, recover R, fork R2, deactivate D, update P after R) x all anchoring orders x 4 coordinate patterns (co-monotone, anti-monotone numbers, equal numbers, equal times) x all store return orders; oracle: result == result for chronological store order == reference model; non-trivial = >= 2 valid candidates for one commitment or create slot and store order differs from chronological", maxOthers+1, maxOthers))
 	alphaSets := []*alphabet{buildAlphabet(keys.Ed25519, asm.SHA256)}
 	if ev.Thorough() {
-		alphaSets = append(alphaSets, buildAlphabet(keys.P256, asm.SHA512), buildAlphabet(keys.Secp256k1, asm.SHA256))
+		alphaSets = append(alphaSets, buildAlphabet(keys.P256, asm.SHA512))
 	}
 	item := 0
 	complete := true
